@@ -386,13 +386,15 @@ def _submultiset(v, vals):
 
 def ck_sample(args, res, exc):
     tname, (pop, k), _ = args
-    vals = _pvals(pop)
+    vals = range(*pop[1:]) if pop[0] == 'R' else _pvals(pop)
     if not 0 <= k <= len(vals): return _want(exc, ValueError, 'sample larger than population or negative')
     if exc: return _noexc(exc)
     m = _unsecure(res)
     if m: return m
     v = _v(res)
     if not isinstance(res, list) or len(v) != k: return f'not a list of length {k}'
+    if pop[0] == 'R':
+        return (all(_isint(a) and int(a) in vals for a in v) and len(set(v)) == k) or f'{v}: not {k} distinct elements of {vals}'
     return _submultiset(v, vals) or f'{v}: not {k} elements at distinct positions of the population (repetition or foreign element)'
 
 
@@ -691,11 +693,24 @@ def in_choices(tier):
             for k in (None, 0, 1, 3):
                 cs.append((t, (('L', s), None, None, k)))
         cs += [(t, (('S', [3, 1, 2]), None, None, 4)), (t, (('R', 0, 5, 1), None, None, 2)),
-               (t, (('L', [1, 2, 3]), [1, 2, 3], None, 3)), (t, (('L', [1, 2, 3]), [2, 0, 4], None, 4)), (t, (('L', [1, 2, 3]), [0, 0, 5, ], None, 2)),
+               (t, (('L', [1, 2, 3]), [1, 2, 3], None, 3)), (t, (('L', [1, 2, 3]), [2, 0, 4], None, 4)), (t, (('L', [1, 2, 3]), [0, 3, 6, ], None, 2)),
                (t, (('S', [5, 6, 7, 8]), None, [1, 3, 3, 10], 3)), (t, (('L', [5, 6, 7, 8]), [3, 1, 1, 2], None, None)), (t, (('R', 0, 4, 1), [1, 1, 1, 2], None, 0)),
-               (t, (('L', [1, 2]), [0, 3], None, 2)), (t, (('L', [1, 2, 3]), [1, 2], None, 1)), (t, (('L', [1, 2, 3]), None, [1, 2], 1)),
+               (t, (('L', [1, 2]), [2, 3], None, 2)), (t, (('L', [1, 2, 3]), [1, 2], None, 1)), (t, (('L', [1, 2, 3]), None, [1, 2], 1)),
                (t, (('L', [1, 2, 3]), [1, 2, 3], [1, 3, 6], 1)), (t, (('L', [1, 2, 3, 4, 5]), [5, 4, 3, 2, 1], None, 2))]
     return cs
+
+
+def _weighted(c):
+    pop, w, cw, k = c[1]
+    return (w is not None) != (cw is not None) and len(w if cw is None else cw) == len(_pvals(pop))
+
+
+def in_choices_main(tier):
+    return [c for c in in_choices(tier) if not (c[0][0] == 'x' and _weighted(c))]
+
+
+def in_choices_wfxp(tier):
+    return [c for c in in_choices(tier) if c[0][0] == 'x' and _weighted(c)]
 
 
 def in_sample(tier):
@@ -731,7 +746,8 @@ def in_permutation(tier, lo=2):
 
 
 def in_getrandbits(tier):
-    return [(t, (k, b)) for t in INT_FXP + ('f11', 'f16') for k in range(1, 9) for b in (False, True)]
+    # secure finite fields: 2^k must not exceed the field order
+    return [(t, (k, b)) for t in INT_FXP + ('f11', 'f16') for k in range(1, 4 if t == 'f11' else 5 if t == 'f16' else 9) for b in (False, True)]
 
 
 def in_uniform(tier):
@@ -751,7 +767,8 @@ EDGE = {
     'edge_n1_unit_vector': ('random_unit_vector', [(t, (1,)) for t in INT_FXP + ('f11',)]),
     'edge_n1_choice': ('choice', [(t, (p,)) for t in INT_FXP for p in [('L', [5]), ('S', [5]), ('R', 7, 8, 1)]]),
     'edge_n1_choices': ('choices', [(t, fa) for t in INT_FXP for fa in [(('L', [3]), None, None, 2), (('L', [3]), [1], None, 2), (('L', [3]), [4], None, 1), (('S', [3]), None, [2], 1),
-                                                                       (('L', [1, 2]), [0, 1], None, 2), (('L', [1, 2]), [3, 0], None, 1), (('L', [3]), None, None, 0)]]),
+                                                                       (('L', [1, 2]), [0, 1], None, 2), (('L', [1, 2]), [3, 0], None, 1), (('L', [3]), None, None, 0),
+                                                                       (('L', [1, 2, 3]), [0, 0, 5], None, 2), (('L', [1, 2]), [0, 3], None, 2)]]),
     'edge_n1_sample': ('sample', [(t, (p, k)) for t in INT_FXP for p in [('L', [7]), ('S', [7]), ('R', 0, 1, 1), ('R', 5, 6, 1)] for k in (0, 1, 2)]),
     'edge_n1_shuffle': ('shuffle', [(t, (p,)) for t in INT_FXP for p in [('L', [7]), ('S', [7]), ('L', [[1, 2]])]]),
     'edge_n1_permutation': ('random_permutation', [(t, (p,)) for t in INT_FXP for p in [('N', 1), ('L', [7]), ('S', [7]), ('R', 3, 4, 1)]]),
@@ -782,7 +799,7 @@ ENUM_T = ('i16', 'x12.4')
 
 def en_randrange(tier):
     for t in ENUM_T:
-        for n in range(2, T(tier, 7, 13)):
+        for n in range(2, T(tier, 10, 18)):
             yield (t, (n, None, None))
         yield from ((t, r) for r in [(2, 7, None), (10, 0, -3), (-5, 5, 2), (1, 20, 7), (-3, 4, None)])
     yield ('f11', (5, None, None)); yield ('f16', (6, None, None))
@@ -793,7 +810,7 @@ def en_randint(tier):
 
 
 def en_unit_vector(tier):
-    return [(t, (n,)) for t in ENUM_T + ('f11',) for n in range(2, T(tier, 7, 13))]
+    return [(t, (n,)) for t in ENUM_T + ('f11',) for n in range(2, T(tier, 10, 18))]
 
 
 def en_choice(tier):
@@ -807,16 +824,26 @@ def en_choices(tier):
     return [(t, c) for t in ENUM_T for c in cs]
 
 
+def en_choices_main(tier):
+    return [c for c in en_choices(tier) if not (c[0][0] == 'x' and _weighted(c))]
+
+
+def en_choices_wfxp(tier):
+    return [c for c in en_choices(tier) if c[0][0] == 'x' and _weighted(c)]
+
+
 def en_perm(tier):
-    return [(t, (('N', n),)) for t in ENUM_T for n in range(2, T(tier, 5, 6))] + [('i16', (('S', [7, 5, 9]),)), ('i16', (('R', 1, 10, 3),))]
+    return ([(t, (('N', n),)) for t in ENUM_T for n in range(2, 5)] + [('i16', (('S', [7, 5, 9]),)), ('i16', (('R', 1, 10, 3),)), ('i16', (('N', 5),))]
+            + T(tier, [], [('x12.4', (('N', 5),)), ('i16', (('N', 6),))]))
 
 
 def en_shuffle(tier):
-    return [(t, ((k, list(range(10, 10 + n))),)) for t in ENUM_T for n in range(2, T(tier, 5, 6)) for k in ('L', 'S')][:T(tier, 9, 99)] + [('i16', (('L', ROWS),))]
+    return ([(t, ((k, list(range(10, 10 + n))),)) for t in ENUM_T for n in range(2, 5) for k in ('L', 'S')] + [('i16', (('L', ROWS),)), ('i16', (('L', [1, 2, 3, 4, 5]),))]
+            + T(tier, [], [('x12.4', (('S', [1, 2, 3, 4, 5]),))]))
 
 
 def en_sample_list(tier):
-    return [(t, (('L' if k % 2 else 'S', list(range(10, 10 + n))), k)) for t in ENUM_T for n in range(2, T(tier, 5, 6)) for k in range(1, n + 1)]
+    return [(t, (('L' if k % 2 else 'S', list(range(10, 10 + n))), k)) for t in ENUM_T for n in range(2, 6) for k in range(1, n + 1) if n < 5 or t == 'i16' or tier != 'quick']
 
 
 def en_sample_range(tier):
@@ -824,18 +851,17 @@ def en_sample_range(tier):
 
 
 def en_getrandbits(tier):
-    return [(t, (k, b)) for t in ENUM_T + ('f11',) for k in range(1, T(tier, 7, 10)) for b in (False, True)]
+    return [(t, (k, b)) for t in ENUM_T + ('f11',) for k in range(1, 4 if t == 'f11' else T(tier, 7, 10)) for b in (False, True)]
 
 
 def en_uniform(tier):
     return [('x12.4', ab) for ab in [(0, 0.75), (1, -0.5), (0, 0.3125), (-1, -0.5), (0.25, 0.625)]] + [('x16.8', (0, 0.01953125)), ('x16.8', (0.5, 0.46875))]
 
 
-def _enum_inputs(fname, gen, rounds=3, outer=1, cap=None):
+def _enum_inputs(fname, gen, rounds=3, outer=1, cap=(14, 18)):
     def inputs(tier):
         for t, fa in gen(tier):
-            L = _L(fname, t, fa, rounds, outer)
-            yield (t, fa, min(L, cap) if cap else L)
+            yield (t, fa, min(_L(fname, t, fa, rounds, outer), T(tier, *cap)))
     return inputs
 
 
@@ -849,7 +875,8 @@ def _mk():
     real('randint', 'randint', in_randint, '9 (a, b) pairs incl. a > b; 20 (200) seeds each')
     real('random_unit_vector', 'random_unit_vector', in_unit_vector, 'n = 2..9 (thorough ..17), four secure types; 20 (200) seeds each')
     real('choice', 'choice', in_choice, 'public and secret lists of length 2..9, range objects, a list with repeats; 20 (200) seeds each')
-    real('choices', 'choices', in_choices, 'populations of length 2..7, k in {default, 0, 1, 3}, weights / cum_weights incl. zero weights, mismatching lengths, both given; 20 (200) seeds each')
+    real('choices_weights_fxp', 'choices', in_choices_wfxp, 'the weighted cases of "choices" for SecFxp(32,16) (separate: vector_sub of a list ending in a plain int)')
+    real('choices', 'choices', in_choices_main, 'populations of length 2..7, k in {default, 0, 1, 3}, weights / cum_weights incl. zero weights, mismatching lengths, both given; 20 (200) seeds each')
     real('sample', 'sample', in_sample, 'lists of length 2..7 (9) and range objects (incl. range(10**7)), every k in 0..n, k = n+1, k = -1, repeats; 20 (200) seeds each')
     real('shuffle', 'shuffle', in_shuffle, 'public and secret lists of length 2..9, lists of rows, repeats; 20 (200) seeds each')
     real('random_permutation', 'random_permutation', in_permutation, 'n = 2..9 (13), lists, ranges; 20 (200) seeds each')
@@ -864,16 +891,17 @@ def _mk():
         out.append(Native(name, f'mpyc.random.{fname}', call_enum(fname), ck_enum(fname), _enum_inputs(fname, gen, **kw), bound))
 
     E = 'all secret bit strings, depth first, up to L bits = three trials of every rejection stage'
-    enum('uni_randrange', 'randrange', en_randrange, f'n = 2..6 (thorough ..12) + 5 (start, stop, step) triples, SecInt(16) and SecFxp(12,4); {E}')
+    enum('uni_randrange', 'randrange', en_randrange, f'n = 2..9 (thorough ..17) + 5 (start, stop, step) triples, SecInt(16) and SecFxp(12,4); {E}')
     enum('uni_randint', 'randint', en_randint, f'5 (8) (a, b) pairs; {E}')
-    enum('uni_unit_vector', 'random_unit_vector', en_unit_vector, f'n = 2..6 (thorough ..12); {E}')
+    enum('uni_unit_vector', 'random_unit_vector', en_unit_vector, f'n = 2..9 (thorough ..17); {E}')
     enum('uni_choice', 'choice', en_choice, f'public/secret lists of length 2..6 (9), ranges; {E}')
-    enum('uni_choices', 'choices', en_choices, f'k <= 3 unweighted, weights / cum_weights with k <= 2: probabilities proportional to the weights; {E}')
-    enum('uni_shuffle', 'shuffle', en_shuffle, f'lists of length 2..4 (thorough 5), rows; all n! orders; {E}')
-    enum('uni_permutation', 'random_permutation', en_perm, f'n = 2..4 (thorough 5); all n! orders; {E}')
-    enum('uni_derangement', 'random_derangement', en_perm, f'n = 2..4 (thorough 5); all derangements; L = two (n <= 3: three) complete shuffles of three trials per stage', outer=2)
-    enum('uni_sample_list', 'sample', en_sample_list, f'lists of length n = 2..4 (5), k = 1..n; all n!/(n-k)! ordered samples; {E}')
-    enum('uni_sample_range', 'sample', en_sample_range, f'range populations of size 2..4 (5), k = 1..n; all ordered samples; {E}')
+    enum('uni_choices_weights_fxp', 'choices', en_choices_wfxp, f'the weighted cases of uni_choices for SecFxp(12,4); {E}')
+    enum('uni_choices', 'choices', en_choices_main, f'k <= 3 unweighted, weights / cum_weights with k <= 2: probabilities proportional to the weights; {E}')
+    enum('uni_shuffle', 'shuffle', en_shuffle, f'lists of length 2..5, rows; all n! orders; {E}, at most 18 (thorough 20) bits', cap=(18, 20))
+    enum('uni_permutation', 'random_permutation', en_perm, f'n = 2..5 (thorough 6); all n! orders; {E}, at most 18 (thorough 20) bits', cap=(18, 20))
+    enum('uni_derangement', 'random_derangement', en_perm, f'n = 2..5 (thorough 6); all derangements; L = three complete shuffles of three trials per stage, at most 14 (thorough 17) bits', outer=3, cap=(14, 17))
+    enum('uni_sample_list', 'sample', en_sample_list, f'lists of length n = 2..5, k = 1..n; all n!/(n-k)! ordered samples; {E}, at most 18 (thorough 20) bits', cap=(18, 20))
+    enum('uni_sample_range', 'sample', en_sample_range, f'range populations of size 2..4 (5), k = 1..n; all ordered samples; L = three trials per drawn element, at most 12 (thorough 16) bits', cap=(12, 16))
     enum('uni_getrandbits', 'getrandbits', en_getrandbits, 'k = 1..6 (9), number and bits form: all 2^k bit strings')
     enum('uni_random', 'random', _fixed([('x12.4', ()), ('x16.8', ())]), 'SecFxp(12,4), SecFxp(16,8): all 2^f bit strings')
     enum('uni_uniform', 'uniform', en_uniform, f'7 (a, b) pairs on SecFxp(12,4)/SecFxp(16,8) (n = 5..24 grid points); {E}')
